@@ -47,6 +47,18 @@ def check(run):
             run.violation("c13:%s:%d:P=%s" % (g[0]["runname"], g[0]["n"], f.get("P")),
                           "%s complexity %d: %s" % (g[0]["runname"], g[0]["n"], f["error"][:900]),
                           {"harness": "rt_gen.py", "payload": {"mode": "c13", "jobs": [dict(g[0], P_list=[1, f.get("P", 2)])]}, "fresh_copy": True})
+    # check_results (the safety net that un-merges functions whose map cannot be verified) on several rank counts
+    crjobs = [{"runname": "core_maths", "n": 4, "P_list": [1, 2, 3, 5] if tier == "quick" else [1, 2, 3, 5, 8, 16], "ncorrupt": 6}]
+    if tier != "quick":
+        crjobs.append({"runname": "base_e_maths", "n": 4, "P_list": [1, 3, 7], "ncorrupt": 10})
+    rr = run.harness("rt_gen.py", {"mode": "c13cr", "jobs": crjobs, "seed": run.seed}, root=run.fresh_copy(), timeout=3000)
+    run.add_bounded("check_results on P ranks repairs deliberately corrupted parameter maps (C03 predicate afterwards)",
+                    "simplifier.check_results", "core_maths 4%s, 6-10 corrupted rows, P in %s" % ("" if tier == "quick" else " + base_e_maths 4", crjobs[0]["P_list"]),
+                    rr["cases"], rr["distinct"], len(rr["failures"]))
+    for f in rr["failures"][:1]:
+        found = True
+        run.violation("c13cr:%s:%d:P=%s" % (f["job"]["runname"], f["job"]["n"], f.get("P")), f["error"][:900],
+                      {"harness": "rt_gen.py", "payload": {"mode": "c13cr", "jobs": [dict(f["job"], P_list=[1, f.get("P", 2)])], "seed": run.seed}, "fresh_copy": True})
     if failed and not found:
         from checks.C14 import report_unproved, bounded_search_split
         r1 = bounded_search_split(run, tier)
